@@ -743,6 +743,10 @@ class Interp:
         v = self.ev(s.exc)
         if isinstance(v, PyConst) and v.kind == 'excclass':
             v = self.new_exc(v.name, [])
+        if z3.is_expr(v) and v.sort() == S.UNIONS.get('Outcome'):
+            O = S.UNIONS['Outcome']
+            self.p.oblige('type', O.is_o_err(v), s, 'raised value is an exception')
+            v = ExcV(O.o_err__cls(v), O.o_err__eid(v), origin='memo')
         if not isinstance(v, ExcV):
             self.oos('raise of a non-exception value', s)
         raise Raised(v)
@@ -764,6 +768,16 @@ class Interp:
 
     def st_Delete(self, s):
         for t in s.targets:
+            if isinstance(t, ast.Subscript) and isinstance(t.slice, ast.Slice):
+                get, set_ = self.place(t.value)
+                cur = get()
+                if not S.is_seq(cur) or t.slice.upper is not None or t.slice.step is not None or t.slice.lower is None:
+                    self.oos('del of this slice', s)
+                lo = self.as_int(self.ev(t.slice.lower), s)
+                ln = z3.Length(cur)
+                lo = z3.If(lo > ln, ln, z3.If(lo < 0, z3.If(ln + lo < 0, 0, ln + lo), lo))
+                set_(z3.Extract(cur, 0, lo))
+                continue
             if isinstance(t, ast.Subscript):
                 recv_place = self.place(t.value)
                 self.delitem(recv_place, self.ev(t.slice), s)
@@ -1167,11 +1181,25 @@ class Interp:
         return v
 
     def coerce_sort(self, v, sort, node):
+        if v is None and sort == S.UNIONS.get('Outcome'):
+            return S.UNIONS['Outcome'].o_none
         v = self.z(v)
         if isinstance(v, ZRec):
             v = v.get()
         if isinstance(v, PRec) and 'dkeys' in v.f and sort == Val:
             return Val.vdict(v.f['dkeys'], v.f['dvals'])
+        O = S.UNIONS.get('Outcome')
+        if O is not None and sort == O:
+            if isinstance(v, ExcV):
+                return O.o_err(v.cls, v.eid)
+            if v is None:
+                return O.o_none
+            if z3.is_expr(v) and v.sort() == S.RECORDS.get('RuleResultR'):
+                return O.o_ok(v)
+        if O is not None and z3.is_expr(v) and v.sort() == O and sort == S.RECORDS.get('RuleResultR'):
+            if not self.spec:
+                self.p.oblige('type', O.is_o_ok(v), node, 'value is a RuleResult')
+            return O.o_ok__res(v)
         if z3.is_expr(v):
             if v.sort() == sort:
                 return v
@@ -1244,6 +1272,8 @@ class Interp:
     def global_name(self, name, n):
         if name in ('True', 'False', 'None'):
             return {'True': True, 'False': False, 'None': None}[name]
+        if name == 'inspect':
+            return PyConst('module', 'inspect')
         if self.w.exc.known(name):
             return PyConst('excclass', self.w.exc.resolve(name))
         if name in BUILTINS:
@@ -1404,6 +1434,8 @@ class Interp:
             o = b if a is None else a
             if o is None:
                 return True
+            if z3.is_expr(o) and o.sort() == S.UNIONS.get('Outcome'):
+                return S.UNIONS['Outcome'].is_o_none(o)
             if S.is_val(o):
                 return o == Val.none
             return False
@@ -1443,6 +1475,8 @@ class Interp:
             return z3.Contains(container, z3.Unit(self.coerce_sort(x, container.sort().basis(), n)))
         if self.dictview(container) is not None:
             return z3.Select(self.dictview(container)[0](), self.as_str(x, n))
+        if isinstance(container, PRec) and 'mkeys' in container.f:
+            return z3.Select(container.f['mkeys'], self.coerce_sort(x, container.f['mkeys'].sort().domain(), n))
         if isinstance(container, PRec) and 'okeys' in container.f:
             return z3.Contains(container.f['okeys'], z3.Unit(self.coerce_sort(x, container.f['okeys'].sort().basis(), n)))
         if S.is_val(container):
@@ -1496,6 +1530,9 @@ class Interp:
         if isinstance(op, ast.BitOr):
             if z3.is_expr(a) and z3.is_array(a) and z3.is_expr(b) and z3.is_array(b):
                 return z3.SetUnion(a, b)
+            if isinstance(a, (PyConst, PyTuple)) and isinstance(b, (PyConst, PyTuple)):
+                items = (a.items if isinstance(a, PyTuple) else [a]) + (b.items if isinstance(b, PyTuple) else [b])
+                return PyTuple(items)
         self.oos(f'binary operator {type(op).__name__}', n)
 
     def floordiv(self, a, b):
@@ -1578,7 +1615,7 @@ class Interp:
             return x
         if S.is_int(x) or isinstance(x, int):
             return z3.IntToStr(self.as_int(x)) if not isinstance(x, bool) else z3.StringVal(str(x))
-        f = self.w.uf('py_repr' if repr_ else 'py_str', Val, z3.StringSort())
+        f = self.w.uf('py_repr' if repr_ else 'uf_keyword_text__Val', Val, z3.StringSort())
         return f(self.to_val(x, node))
 
     # ---- subscripts ----------------------------------------------------------------
@@ -1791,6 +1828,11 @@ class Interp:
             return self.dict_setitem(obj, idx, v, n)
         if isinstance(obj, PRec) and 'okeys' in obj.f:
             return self.odict_setitem(obj, idx, v, n)
+        if isinstance(obj, PRec) and 'mkeys' in obj.f:
+            k = self.coerce_sort(idx, obj.f['mkeys'].sort().domain(), n)
+            obj.f['mkeys'] = z3.Store(obj.f['mkeys'], k, True)
+            obj.f['mvals'] = z3.Store(obj.f['mvals'], k, self.coerce_sort(v, obj.f['mvals'].sort().range(), n))
+            return
         if isinstance(obj, ArrList):
             i = self.norm_index(idx, obj.n, n)
             set_(ArrList(z3.Store(obj.arr, i, self.coerce_sort(v, obj.arr.sort().range(), n)), obj.n, obj.elem))
@@ -1935,6 +1977,8 @@ class Interp:
                 return BoundMeth(obj, fn.name, Closure(fn, {}, where[0], where[1]))
             if 'dkeys' in obj.f or 'okeys' in obj.f:
                 return BoundMeth(obj, attr, PyConst('dictmethod', attr))
+            if 'mkeys' in obj.f:
+                return BoundMeth(obj, attr, PyConst('memomethod', attr))
             self.oos(f'unknown attribute {obj.cls}.{attr}', n)
         if isinstance(obj, ZRec):
             name = obj.cls
@@ -1962,6 +2006,11 @@ class Interp:
         if S.is_record(obj):
             name = S.record_name(obj.sort())
             if attr in S.rec_fields(name):
+                kind = getattr(self.w.registry, 'record_field_kind', {}).get((name, attr))
+                if kind and kind.startswith('func:'):
+                    return FuncVal(kind.split(':', 1)[1], S.rec_get(obj, attr))
+                if kind and kind.startswith('opaque:'):
+                    return Opaque(kind.split(':', 1)[1], S.rec_get(obj, attr))
                 return S.rec_get(obj, attr)
             if attr == '_replace':
                 return BoundMeth(obj, '_replace', PyConst('ntmethod', '_replace'))
@@ -2077,7 +2126,7 @@ class Interp:
                 if isinstance(v, PyTuple):
                     args.extend(v.items)
                 else:
-                    self.oos('star-args of symbolic length', n)
+                    args.append(StarV(v))
             else:
                 args.append(self.ev(a))
         kwargs = {}
@@ -2087,7 +2136,7 @@ class Interp:
                 if isinstance(v, dict):
                     kwargs.update(v)
                 else:
-                    self.oos('** of symbolic mapping', n)
+                    kwargs['**'] = v
             else:
                 kwargs[k.arg] = self.ev(k.value)
         return self.call(fn, args, kwargs, n)
@@ -2126,6 +2175,9 @@ class Interp:
             return self.call_closure(fn, None, args, kwargs, n)
         if isinstance(fn, FuncVal):
             c = self.w.registry.generic[fn.contract]
+            nparams = len(c.sig) - 1
+            if len(args) > nparams:
+                args = args[len(args) - nparams:]  # bound-method style call f(instance, ctx)
             return self.call_contract(c, None, [fn, *args], kwargs, n)
         if isinstance(fn, PyConst):
             from . import builtins_model as B
@@ -2246,6 +2298,12 @@ class Interp:
 
 
 @dataclass
+class StarV:
+    """*args of a symbolic tuple value"""
+    value: Any
+
+
+@dataclass
 class PyRange:
     lo: Any
     hi: Any
@@ -2269,7 +2327,7 @@ BUILTINS = {
     'len', 'isinstance', 'bool', 'int', 'str', 'min', 'max', 'range', 'all', 'any', 'getattr', 'hasattr',
     'callable', 'next', 'iter', 'enumerate', 'abs', 'repr', 'sorted', 'hash', 'issubclass', 'super', 'print', 'id',
     'ord', 'chr', 'zip', 'sum', 'old', 'int_ok', 'uint_ok', 'float_ok', 'implies', 'type', 'dict_with', 'dict_get',
-    'dict_has', 'seq_eq', 'out_ok', 'out_frame', 'out_ret', 'out_cut', 'out_fail_frame', 'exc_inside', 'exc_is', 'boundcall', 'top_only',
+    'dict_has', 'seq_eq', 'out_ok', 'out_frame', 'out_ret', 'out_cut', 'out_fail_frame', 'exc_inside', 'exc_is', 'boundcall', 'top_only', 'store', 'o_none', 'o_ok', 'same_func', 'ismethod', 'is_func', 'is_ok', 'is_err', 'ok_res', 'is_failure', 'grown', 'memo_ok',
 }
 
 
